@@ -21,6 +21,7 @@ C12-d FAT12/FAT16 thresholds: Create and Read of one package reject the same clu
 C12-e writer magic = reader magic at the same offset (byte-layout extraction, see codec rules).
 C12-f recognition is position-independent: in the six filesystem readers no rejection (an error return) is decided by a condition that depends on the start offset of the range (other than a sign test of start itself) - the property quantifies over whole disk and any partition.
 C12-g stale signatures: in Disk.CreateFilesystem every feasible path to one of the six filesystem Create calls passes a device write of zero bytes at the start of the target range that covers the places where the supported formats keep what identifies them (FAT boot sector and squashfs superblock at 0, ext4 superblock at 1024..2048, first ISO9660 volume descriptor at 32768..34816: at least 34816 bytes, or the whole range if it is smaller). The Create functions write only their own structures, so without it the previous filesystem's signature survives and GetFilesystem reports the old type (the property quantifies over stale bytes of a previous different filesystem).
+C12-h a table of another kind written over a GPT disk must not read back as the old GPT (partition.Read looks for a GPT first; the property quantifies over "rewrite of a table over an existing different table"): every success return of Disk.Partition lies behind a call of a function that reads at the places where gpt.Read looks for a header (an offset derived from the logical block size, and one derived from the disk size), compares what it read with the GPT signature "EFI PART" and overwrites it through the writable file.
 Not covered: equality of the cluster-count formulas in Create and Read; whether fat32.Read rejects every FAT16 image.`)
 }
 
@@ -31,6 +32,8 @@ func runC12(w *World, r *Report) {
 	c12Thresholds(w, r)
 	c12PositionIndependent(w, r)
 	c12EraseBeforeCreate(w, r)
+	c12StaleGPT(w, r)
+	r.Floor("C12-h", r.countRule("C12-h"), 1)
 	r.Floor("C12-g", r.countRule("C12-g"), 6)
 	r.Floor("C12-f", r.countRule("C12-f"), 6)
 	r.Floor("C12-a", r.countRule("C12-a"), 3)
@@ -982,5 +985,56 @@ func c12EraseBeforeCreate(w *World, r *Report) {
 		}
 		r.Check(ok, "C12-g", name, "old signatures erased before "+w.pkgOf(g)+".Create", w.relFile(cc.Pos()), "",
 			fmt.Sprintf("%s.Create can be reached without zeroing the first %d bytes of the target range: Create writes only its own structures, so the boot sector / superblock / volume descriptor of an earlier filesystem of another type survives and GetFilesystem reports the old type", w.pkgOf(g), signatureWindow))
+	}
+}
+
+// c12StaleGPT (C12-h): Disk.Partition invalidates the headers of a GPT that a table of another kind replaces.
+func c12StaleGPT(w *World, r *Report) {
+	pf := w.Method("disk", "Disk", "Partition")
+	name := fnName(pf)
+	// eraser: an in-module function that (itself or one level down) reads, compares with the GPT signature and writes
+	isEraser := func(g *ssa.Function) bool {
+		if g == nil || !w.fnSet[g] || g.Blocks == nil {
+			return false
+		}
+		reads, writes, sig, sizeOff := false, false, false, false
+		for _, f := range withClosures(g) {
+			allInstrs(f, func(ins ssa.Instruction) {
+				if c, ok := ins.(ssa.CallInstruction); ok {
+					if isReadAt(c) {
+						reads = true
+						for _, rt := range w.prov(argsOf(c)[1], provOpts{}).Roots {
+							if rt.Kind == RField && rt.Field.Name() == "Size" {
+								sizeOff = true
+							}
+						}
+					}
+					if isWriteAt(c) {
+						writes = true
+					}
+				}
+				for _, op := range ins.Operands(nil) {
+					if op == nil || *op == nil {
+						continue
+					}
+					if k, ok := (*op).(*ssa.Const); ok && k.Value != nil && k.Value.Kind() == constant.String && constant.StringVal(k.Value) == "EFI PART" {
+						sig = true
+					}
+				}
+			})
+		}
+		return reads && writes && sig && sizeOff
+	}
+	bad := mustPass(w, pf, func(ins ssa.Instruction) bool {
+		c, ok := ins.(ssa.CallInstruction)
+		return ok && isEraser(c.Common().StaticCallee())
+	}, nil)
+	if len(bad) == 0 {
+		r.Ok("C12-h", name, "a replaced GPT's headers are invalidated before success", w.relFile(pf.Pos()), "")
+		return
+	}
+	for _, ret := range bad {
+		r.Fail("C12-h", name, "a replaced GPT's headers are invalidated before success", w.relFile(instrPos(ret)),
+			"Disk.Partition can succeed without testing LBA 1 and the last sector for the signature of an earlier GPT and erasing it: the MBR writer touches only bytes 446..511, the GPT header survives, and because a disk is probed for GPT first it reads back as the old GPT with the old partitions")
 	}
 }
